@@ -338,6 +338,71 @@ impl RefTree {
     }
 }
 
+/// A tree of any height (up to 63) in which all but a few leaves hold `default_leaf`: one default
+/// node value per depth plus the nodes on the paths of the set leaves. O(set leaves × height).
+pub struct SparseTree {
+    pub height: u32,
+    pub n_friendly: u64,
+    default_nodes: Vec<Felt>,
+    nodes: std::collections::BTreeMap<(u32, u64), Felt>,
+}
+
+impl SparseTree {
+    pub fn build(height: u32, n_friendly: u64, default_leaf: Felt, set: &[(u64, Felt)]) -> Self {
+        let mut default_nodes = vec![Felt::ZERO; height as usize + 1];
+        default_nodes[height as usize] = default_leaf;
+        for d in (0..height as usize).rev() {
+            default_nodes[d] = node_hash(default_nodes[d + 1], default_nodes[d + 1], (d + 1) as u64, n_friendly);
+        }
+        let mut t = SparseTree { height, n_friendly, default_nodes, nodes: Default::default() };
+        let mut level: Vec<u64> = Vec::new();
+        for (i, v) in set {
+            t.nodes.insert((height, *i), *v);
+            level.push(*i);
+        }
+        level.sort();
+        level.dedup();
+        for d in (1..=height).rev() {
+            let mut parents: Vec<u64> = level.iter().map(|i| i >> 1).collect();
+            parents.dedup();
+            for p in &parents {
+                let h = node_hash(t.node(d, 2 * p), t.node(d, 2 * p + 1), d as u64, n_friendly);
+                t.nodes.insert((d - 1, *p), h);
+            }
+            level = parents;
+        }
+        t
+    }
+    pub fn node(&self, depth: u32, index: u64) -> Felt {
+        *self.nodes.get(&(depth, index)).unwrap_or(&self.default_nodes[depth as usize])
+    }
+    pub fn root(&self) -> Felt {
+        self.node(0, 0)
+    }
+    /// Same order as `RefTree::auth`.
+    pub fn auth(&self, queries: &[u64]) -> Vec<Felt> {
+        let mut out = Vec::new();
+        let mut known: Vec<u64> = queries.to_vec();
+        for d in (1..=self.height).rev() {
+            let mut parents = Vec::new();
+            let mut i = 0;
+            while i < known.len() {
+                let k = known[i];
+                let sib = k ^ 1;
+                if k & 1 == 0 && i + 1 < known.len() && known[i + 1] == sib {
+                    i += 2;
+                } else {
+                    out.push(self.node(d, sib));
+                    i += 1;
+                }
+                parents.push(k >> 1);
+            }
+            known = parents;
+        }
+        out
+    }
+}
+
 /// Leaf of the vector commitment for one table row (`cells` are the plain values).
 pub fn row_leaf(cells: &[Felt], height: u32, n_friendly: u64) -> Felt {
     let r = mont_r();
